@@ -119,6 +119,10 @@ pub fn gen_history(seed: u64, max_ops: usize, allow_abandon: bool, extra: bool) 
     let dim = r.range(1, 16) as usize;
     let use_uri = r.chance(1, 2);
     let w_steer = if r.chance(1, 3) { 3 } else { 0 };
+    // memory cards live in a track of their own that only a commit writes: a commit that carries
+    // cards and nothing else is a path of its own
+    let w_cards = if extra && r.chance(1, 3) { 3 } else { 0 };
+    let card_times: Vec<i64> = vec![-5, 0, 7, 1_700_000_000];
     for _ in 0..n_ops {
         if !st.open {
             ops.push(Op::Open);
@@ -126,7 +130,7 @@ pub fn gen_history(seed: u64, max_ops: usize, allow_abandon: bool, extra: bool) 
             st.flush();
             continue;
         }
-        let c = r.weighted(&[w_put, w_upd, w_del, w_commit, w_reopen, w_abandon, w_emb, w_check, w_vac, w_doc, w_steer]);
+        let c = r.weighted(&[w_put, w_upd, w_del, w_commit, w_reopen, w_abandon, w_emb, w_check, w_vac, w_doc, w_steer, w_cards]);
         match c {
             0 | 6 => {
                 let pay = gen_pay(&mut r, &mix, &st);
@@ -215,6 +219,15 @@ pub fn gen_history(seed: u64, max_ops: usize, allow_abandon: bool, extra: bool) 
                 st.open = false;
             }
             7 => ops.push(Op::Check),
+            11 => {
+                st.n += 1;
+                let k = r.range(1, 3);
+                ops.push(Op::PutCards((0..k).map(|j| crate::cards::gen_card(&mut r, &card_times, st.n * 10 + j)).collect()));
+                if r.chance(1, 2) {
+                    ops.push(Op::Commit);
+                    st.flush();
+                }
+            }
             10 => {
                 // park the log's write head within 48 bytes of (or exactly at) the region end: a
                 // calibrating put to the middle, a commit (pending bytes back to zero, head stays),
